@@ -144,6 +144,21 @@ func (n *Net) Cut(a, b int) {
 	// the partition, on a link whose latency nothing can change any more
 	n.MN.UnlinkPeers(n.ids[a], n.ids[b])
 	n.MN.DisconnectPeers(n.ids[a], n.ids[b])
+	// A dial that had already picked the link up when it was removed (possible
+	// when lock acquisitions are scheduling points) registers its connection after
+	// the sweep above: sweep again a simulated millisecond later, and once more
+	// when the partition heals, so that nothing lives on the removed link.
+	ia, ib := n.ids[a], n.ids[b]
+	go func() {
+		select {
+		case <-time.After(time.Millisecond):
+		case <-n.ctx.Done():
+			return
+		}
+		if n.cut[pair(a, b)] && n.ids[a] == ia && n.ids[b] == ib {
+			n.MN.DisconnectPeers(ia, ib)
+		}
+	}()
 }
 
 // Partition cuts every pair across the two groups.
@@ -174,6 +189,7 @@ func (n *Net) Heal() {
 				if n.dead[a] || n.dead[b] {
 					continue
 				}
+				n.MN.DisconnectPeers(n.ids[a], n.ids[b]) // nothing survives on the removed link
 				if _, err := n.MN.LinkPeers(n.ids[a], n.ids[b]); err == nil {
 					n.MN.ConnectPeers(n.ids[a], n.ids[b])
 				}
@@ -192,6 +208,7 @@ func (n *Net) HealPeer(a int) {
 			if n.dead[a] || n.dead[b] {
 				continue
 			}
+			n.MN.DisconnectPeers(n.ids[a], n.ids[b]) // nothing survives on the removed link
 			if _, err := n.MN.LinkPeers(n.ids[a], n.ids[b]); err == nil {
 				n.MN.ConnectPeers(n.ids[a], n.ids[b])
 			}
